@@ -395,6 +395,13 @@ var upReplies = []string{
 	"HTTP/1.1 201 Created\r\nX-Note: any 2xx establishes the tunnel\r\n\r\n",
 	"HTTP/1.1 200 OK\r\nContent-Length: 7\r\n\r\n",
 	"HTTP/1.1 200 OK\r\nTransfer-Encoding: chunked\r\n\r\n",
+	"HTTP/1.1 200 OK\r\nContent-Length: 7\r\nConnection: close\r\n\r\n",
+}
+
+// upFraming is how net/http's readTransfer frames the body of each reply above
+// (chunked, declared length, closing): the input of ReplyReader.close_consumes.
+var upFraming = [][3]int{
+	{0, 0, 1}, {0, 0, 1}, {0, 0, 1}, {0, 0, 0}, {0, 0, 1}, {0, 7, 0}, {1, 0, 0}, {0, 7, 1},
 }
 
 func (sc *scenario) runClient(proxyAddr string, wg *sync.WaitGroup) {
